@@ -249,3 +249,12 @@ pub broadcast axiom fn ax_try_uses_from<T, S: core::convert::From<T>>(value: T, 
 pub broadcast group vx_axioms {
     chain_postcondition, enumerate_postcondition, extend_postcondition, extend_postcondition_iter, extend_postcondition_vec, ax_try_uses_from,
 }
+
+// ---- cloning a chain of cloneable iterators yields an iterator in the same state (same remaining elements) ----
+pub assume_specification<A: Clone, B: Clone>[ <Chain<A, B> as Clone>::clone ](c: &Chain<A, B>) -> (r: Chain<A, B>)
+    ensures r == *c;
+
+// ---- `&mut vec[range]`: same contract vstd gives for arrays (re-slice the whole vector, then index the slice) ----
+pub assume_specification<T, I: core::slice::SliceIndex<[T]>, A: core::alloc::Allocator>[ <Vec<T, A> as core::ops::IndexMut<I>>::index_mut ](v: &mut Vec<T, A>, index: I) -> (output: &mut <Vec<T, A> as core::ops::Index<I>>::Output)
+    ensures exists|slice: &mut [T]| (#[trigger] slice@) == old(v)@ && final(slice)@ == final(v)@
+        && call_ensures(<[T] as core::ops::IndexMut<I>>::index_mut, (slice, index), output);
